@@ -23,8 +23,8 @@ EXTENDS Dfols, Json, IOUtils, TLCExt
 
 CONSTANTS MaxSilent
 
-Trace == JsonDeserialize(IOEnv.TRACE_FILE)
-Snaps == Trace.snaps
+Run == JsonDeserialize(IOEnv.TRACE_FILE)
+Snaps == Run.snaps
 
 VARIABLES l,      \* snapshots matched so far
           sil     \* silent steps taken since the last match
@@ -38,6 +38,8 @@ SaveProj(s) == [has |-> s.has, obj |-> IF s.has THEN s.obj ELSE 0, en |-> IF s.h
 \* (Dfols.tla does not model base shifts and Lagrange queries, which move it)
 ModelMatches(m, p) == /\ m.slots = ObsSlotsOf(p) /\ m.kopt = p.kopt + 1 /\ SaveProj(m.save) = ObsSaveOf(p)
                       /\ m.jacen = p.jacen /\ m.numpts = p.numpts
+\* radius level: RhoLevels minus the number of reductions of rho in this run (since the last start or admitted soft restart), or "rho = rhoend" (-1)
+RhoMatches(s, r, rend) == r = (IF s.rl = -1 THEN rend ELSE s.rl)
 StateMatches(s, nf_, nx_, m) == nf_ = s.nf /\ nx_ = s.nx /\ ModelMatches(m, s.m)
 
 \* message classes of the recorder -> message names of Dfols.tla
@@ -51,6 +53,7 @@ FlagOK(obs, spec) == CASE obs = 0 -> spec = "success"
                        [] obs = 2 -> spec = "slow"
                        [] obs = 3 -> spec = "false_success"
                        [] obs = -2 -> spec = "tr_increase"
+                       [] obs = 5 -> spec = "tr_increase"      \* the same exit reported as a warning (projections)
                        [] obs = -3 -> spec = "linalg"
                        [] obs = -4 -> spec = "eval_error"
                        [] obs = 4 -> spec = "auto"
@@ -62,14 +65,16 @@ TraceVals == LET s == NextSnap IN
              IF s.kind = "state" THEN {s.m.obj[k] : k \in 1..s.m.npt} \cup (IF s.m.hassave THEN {s.m.objsave} ELSE {}) \cup {s.v[i] : i \in 1..Len(s.v)}
              ELSE {s.v[i] : i \in 1..Len(s.v)}
 
+TraceEvalVals == TraceVals \cup {NaN, Inf}
+
 TraceInit == Init /\ l = 0 /\ sil = 0
 
-Observable == <<nf, nx, mdl.slots, mdl.kopt, SaveProj(mdl.save), mdl.jacen, mdl.numpts>>
+Observable == <<nf, nx, mdl.slots, mdl.kopt, SaveProj(mdl.save), mdl.jacen, mdl.numpts, rho>>
 
 Step(s) ==
   CASE s.kind = "state" ->
-         \/ /\ Next /\ pc # "runend" /\ StateMatches(s, nf', nx', mdl') /\ l' = l + 1 /\ sil' = 0
-         \/ /\ StateMatches(s, nf, nx, mdl) /\ UNCHANGED vars /\ l' = l + 1 /\ sil' = sil      \* an event that changed nothing observable (refused save, failed fit)
+         \/ /\ Next /\ pc # "runend" /\ StateMatches(s, nf', nx', mdl') /\ RhoMatches(s, rho', rhoendC') /\ l' = l + 1 /\ sil' = 0
+         \/ /\ StateMatches(s, nf, nx, mdl) /\ RhoMatches(s, rho, rhoendC) /\ UNCHANGED vars /\ l' = l + 1 /\ sil' = 0      \* an event that changed nothing observable (refused save, failed fit)
     [] s.kind = "runend" ->
          /\ pc = "runend" /\ nf = s.nf /\ nx = s.nx /\ nruns = s.nruns
          /\ FlagOK(s.flag, exitInfo.flag) /\ MsgOK(s.msg, exitInfo.msg)
@@ -88,10 +93,15 @@ TraceNext == \/ l < Len(Snaps) /\ Step(Snaps[l + 1])
              \/ l < Len(Snaps) /\ Silent
 TraceSpec == TraceInit /\ [][TraceNext]_tvars
 
+\* batchlog is a history variable (it also records the first sample's objective, which the observable state does not determine once further samples
+\* are averaged in): hidden from the fingerprint so that behaviours differing only there are one
+CtlView == <<pc, nf, nx, nruns, mdl, rho, rhoendL, rhoendC, softLSR, softLastFopt, hardLSR, best, exitInfo, ptval, ptns, geomLeft, addLeft, restarts, x0inherit, ret, npt,
+             reg, geomDone, phaseReq, l, sil>>
+
 \* furthest snapshot matched (register 1) - read by the POSTCONDITION; needs -workers 1
+ASSUME TLCSet(1, 0)
 Progress == TLCSet(1, IF l > TLCGet(1) THEN l ELSE TLCGet(1))
-ProgressInit == TLCSet(1, 0)
 TraceAccepted == /\ TLCGet(1) = Len(Snaps)
-Report == PrintT(<<"CTL", Trace.id, TLCGet(1), Len(Snaps)>>)
+Report == PrintT(<<"CTL", Run.id, TLCGet(1), Len(Snaps)>>)
 Post == Report /\ TraceAccepted
 ====================================================================================================
